@@ -170,7 +170,9 @@ def run_termination_rules(ctx, rep):
         for bb, t, cal, c in b.calls():
             if not cal:
                 continue
-            is_recv = cal in ("crossbeam_channel::channel::Receiver::<T>::recv", "flume::Receiver::<T>::recv")
+            # (a channel iterator's next() is recv().ok(): `for msg in rx.iter()` blocks like recv and ends on disconnect)
+            is_recv = cal in ("crossbeam_channel::channel::Receiver::<T>::recv", "flume::Receiver::<T>::recv") or \
+                (cal.endswith("Iterator>::next") and ("<flume::" in cal or "<crossbeam_channel::" in cal))
             is_send = cal == "crossbeam_channel::channel::Sender::<T>::send"
             if not (is_recv or is_send) or not b.on_cycle(bb):
                 continue
@@ -275,8 +277,9 @@ def run_termination_rules(ctx, rep):
                   "the analysis thread joins all validator threads on every path", an, "validator_dispatcher.join() is skipped on some path")
     if dj in f.fns:
         clo = dj + "::{closure#0}"
-        ok = clo in f.fns and bool(join_sites(cg.body(clo)))
         b = cg.body(dj)
+        # each drained handle is joined: in the `for_each` closure or, written as a loop, in the function itself (on the cycle)
+        ok = (clo in f.fns and bool(join_sites(cg.body(clo)))) or any(b.on_cycle(bb_) for bb_, t_ in join_sites(b))
         dr = [t for bb, t, cal, c in b.calls() if cal and cal.endswith("::drain")]
         full = bool(dr) and "RangeFull" in show_origin(b.origin(dr[0]["args"][1]))
         rep.check(ok and full, "R17.3", "R17.3|dispatcher|joins_all", "ValidatorDispatcher::join drains all handles (..) and joins each", dj)
